@@ -36,20 +36,18 @@ impl ReferentialIntegrity {
             .map(|u| f_eq(Attribute::Uuid, PartialValue::Uuid(*u)))
             .collect();
 
-        // F_inc(lusion). All items of inner must be 1 or more, or the filter
-        // will fail. This will return the union of the inclusion after the
-        // operation.
-        let filt_in = filter!(f_inc(inner));
-        let b = qs.internal_exists(&filt_in).inspect_err(|err| {
-            error!(?err, filter = ?filt_in, "internal exists failure");
+        // Every referenced uuid must resolve to a *live* entry. An inclusion filter is
+        // decided on the uuid index, which also lists recycled and tombstoned entries, so a
+        // deleted target listed next to a live one would pass. Count the live matches
+        // instead (callers pass distinct uuids).
+        let expected = inner.len();
+        let filt_in = filter!(f_or(inner));
+        let found = qs.internal_search(filt_in).inspect_err(|err| {
+            error!(?err, "internal search failure");
         })?;
 
         // Is the existence of all id's confirmed?
-        if b {
-            Ok(true)
-        } else {
-            Ok(false)
-        }
+        Ok(found.len() == expected)
     }
 
     #[instrument(level = "debug", name = "check_uuids_exist_slow", skip_all)]
